@@ -124,8 +124,8 @@ def toc_lookup_rules(ctx, rule='R8'):
     rn = [n for n in g3.nodes if n.kind == 'return' and n.ast.value is not None and not isinstance(n.ast.value, ast.Constant)]
     ok = len(rn) == 1 and any(k[0].endswith('.ident == %s' % gi.params[1]) or k[0].startswith('%s == ' % gi.params[1]) and k[0].endswith('.ident') for k in g3.fact_keys_at(rn[0]) if k[1])
     if ok:
-        cmp_ = [k[0] for k in g3.fact_keys_at(rn[0]) if k[1] and '.ident' in k[0]][0]
-        ok = norm(rn[0].ast.value) in cmp_
+        cmps_ = [k[0] for k in g3.fact_keys_at(rn[0]) if k[1] and '.ident' in k[0]]
+        ok = any(norm(rn[0].ast.value) + '.ident' in c_ for c_ in cmps_)
     ctx.inst(rule, gi, 'by-id-compares-ident', ok, 'get_element_by_id returns the element whose .ident equals the argument')
     gid = toc.method('get_element_id')
     sp = {norm(s.targets[0]) if not isinstance(s.targets[0], (ast.List, ast.Tuple)) else '[%s]' % ', '.join(norm(e) for e in s.targets[0].elts): norm(s.value)
